@@ -555,10 +555,24 @@ def tag_paths2(ctx, tr):
             ctx.tag('cross_bus_await_with_intervening_handler')
 
 
+def tag_paths3(ctx, tr):
+    # two handlers (parallel bus) are suspended awaiting the SAME event at the same time: the one whose inline drain did not take
+    # the event finds nothing to process, spins 1000 zero-sleeps and returns it unfinished (finding F20)
+    for i, a in enumerate(tr.AB):
+        if a.by not in tr.Eh or a.ev.startswith('idle:'):
+            continue
+        ae = next((r for r in tr.AE if r.by == a.by and r.ev == a.ev and r.seq > a.seq), None)
+        end = ae.seq if ae is not None else tr.end
+        for b in tr.AB:
+            if b is not a and b.ev == a.ev and b.by != a.by and b.by in tr.Eh and a.seq <= b.seq < end:
+                ctx.tag('siblings_await_same_event')
+
+
 def evaluate(ctx, finished):
     tr = Trace(ctx.records)
     tag_paths(ctx, tr)
     tag_paths2(ctx, tr)
+    tag_paths3(ctx, tr)
     fs = final_snaps(ctx)
     eval_c01(ctx, tr, finished)
     eval_c02(ctx, tr)
